@@ -241,8 +241,23 @@ static int new_packet(int sk_fd, int timer_fd)
         return -1;
     }
 
+    if (n < (ssize_t)AVTP_FULL_HEADER_LEN) {
+        fprintf(stderr, "Dropping packet: too short\n");
+        return 0;
+    }
+
     if (!is_valid_packet(cvf)) {
         fprintf(stderr, "Dropping packet\n");
+        return 0;
+    }
+
+    /* The H.264 data announced by the header has to lie within the
+     * received packet.
+     */
+    if (Avtp_Cvf_GetStreamDataLength(cvf) < AVTP_H264_HEADER_LEN ||
+        Avtp_Cvf_GetStreamDataLength(cvf) - AVTP_H264_HEADER_LEN >
+                        (size_t)n - AVTP_FULL_HEADER_LEN) {
+        fprintf(stderr, "Dropping packet: invalid stream data length\n");
         return 0;
     }
 
